@@ -87,7 +87,11 @@ def mk_handle(w, path, extents, numtype, bolabel, stale=None):
     a._size = symnp._prod(cached)
     a._metadata = D.metadata.MetaData(a._path / a._metadatafilename, accessmode='r',
                                       callatfilecreationordeletion=a._update_readmetxt)
-    return a
+
+    def donor():
+        put_array(D, w, '/w/donor/arr', 2, numtype, bolabel, tuple(2 for _ in extents[1:]))
+        return D.array.Array('/w/donor/arr')
+    return complete_stub(a, donor)
 
 
 def product(xs):
